@@ -79,17 +79,20 @@ Lemma chunk_quiet fl st p data mt more :
   (d_open st = None /\ quiet_at st p /\ not_link st p) \/ (d_open st = Some p /\ exists m old, fget (d_fs st) p = Some (NFile m old)) ->
   d_events (fst (doer_exec fl st (CCreateOrUpdateFile p data mt more))) = d_events st.
 Proof.
-  intros Hc. cbn [doer_exec]. unfold open_for_write.
+  intros Hc. cbn [doer_exec]. destruct (refuses st p); [reflexivity|].
+  set (st0 := with_failed st (if more then Some p else None)).
+  unfold open_for_write.
+  change (d_open st0) with (d_open st). change (resolve_above st0 p) with (resolve_above st p). change (d_fs st0) with (d_fs st).
   destruct Hc as [(Ho & Hq & Hnl)|(Ho & m & old & Ep)]; rewrite Ho.
   - pose proof (quiet_resolve st p Hq) as Hr.
     destruct (resolve_above st p) as [|q|e] eqn:Er; [|exfalso; eapply Hr; eauto|reflexivity].
     destruct (fget (d_fs st) p) as [[m old| |t k]|] eqn:Ep.
-    + destruct mt; unfold stamp_file, write_chunk; reflexivity.
+    + destruct (write_fails _); destruct mt; unfold stamp_file, write_chunk; reflexivity.
     + reflexivity.
     + exfalso. eapply Hnl; eauto.
-    + destruct mt; unfold stamp_file, write_chunk; reflexivity.
+    + destruct (write_fails _); destruct mt; unfold stamp_file, write_chunk; reflexivity.
   - unfold path_eqb. destruct (path_eq_dec p p); [|congruence]. rewrite Ep.
-    destruct mt; unfold stamp_file, write_chunk; reflexivity.
+    destruct (write_fails _); destruct mt; unfold stamp_file, write_chunk; reflexivity.
 Qed.
 
 Lemma chunks_quiet fl p mt : forall chunks st,
